@@ -6,7 +6,10 @@
 
 package z
 
-import "sync/atomic"
+import (
+	"sync/atomic"
+	"unsafe"
+)
 
 // Verification hooks, enabled (`-tags verif`). Nothing changes behaviour until
 // a hook table is installed with VerifInstall.
@@ -66,6 +69,24 @@ func VerifAllocState(a *Allocator) (bufIdx, posIdx, curLen, nextLen int) {
 	}
 	if bufIdx+1 < len(a.buffers) {
 		nextLen = len(a.buffers[bufIdx+1])
+	}
+	return
+}
+
+// VerifAllocChunks reports base address and length of every buffer a holds at
+// the moment (a released or not yet allocated slot has length 0), and the
+// index of the buffer the next allocation would go to. Read-only; the caller
+// must not run it concurrently with Allocate.
+func VerifAllocChunks(a *Allocator) (bases []uintptr, lens []int, cur int) {
+	cur, _ = parse(atomic.LoadUint64(&a.compIdx))
+	a.Lock()
+	defer a.Unlock()
+	for _, b := range a.buffers {
+		if len(b) == 0 {
+			bases, lens = append(bases, 0), append(lens, 0)
+			continue
+		}
+		bases, lens = append(bases, uintptr(unsafe.Pointer(&b[0]))), append(lens, len(b))
 	}
 	return
 }
